@@ -21,7 +21,9 @@ For every node class (subclasses of ``liquid.ast.Node``) and expression class:
               ``node.template_scope()``, ``node.partial_scope()`` / ``node.block_scope()`` and
               recurses into ``node.children(...)``.
 Sync/async parity of the analyser is decided under C01.
-Not decided: the scope bookkeeping and the partial de-duplication (``seen``) inside ``_visit``
+  C19-BALANCE every scope frame ``_visit`` pushes is popped on every path before it returns (all
+              paths, counting frames): a leaked frame hides later global reads of its names.
+Not decided: the rest of the scope bookkeeping and the partial de-duplication (``seen``) inside ``_visit``
 — value/history level (see DESIGN.md: a partial first visited inside a loop is not
 re-visited outside it).
 """
@@ -274,9 +276,9 @@ def is_name_(n, name):
 
 def run(repo: Repo) -> Result:
     res = Result(PID)
-    res.rules = ["C19-EXPR", "C19-CHILD", "C19-SCOPE", "C19-SUBEXPR", "C19-FILTERS", "C19-VISIT", "C19-KEY"]
+    res.rules = ["C19-EXPR", "C19-CHILD", "C19-SCOPE", "C19-SUBEXPR", "C19-FILTERS", "C19-VISIT", "C19-KEY", "C19-BALANCE"]
     res.explanation = "per node/expression class: fields used while rendering/evaluating ⊆ fields reported to the analyser (expressions(), children(), scopes); shape of the analyser's visit"
-    res.assumptions = ["scope bookkeeping and partial de-duplication inside _visit are not decided (history level)"]
+    res.assumptions = ["partial de-duplication inside _visit is decided only as far as C19-KEY and C19-BALANCE go (history level)"]
     nodes = repo.subclasses("liquid.ast.Node", strict=True)
     if len(nodes) < 30:
         raise AnchorMissing(f"only {len(nodes)} node classes found")
@@ -576,7 +578,18 @@ def run(repo: Repo) -> Result:
             if callee_name(call) != "Partial":
                 continue
             kw = {k.arg: k.value for k in call.keywords}
-            if "ISOLATED" not in text(kw.get("scope", call.args[1] if len(call.args) > 1 else ast.Constant(None))):
+            scope_txt = text(kw.get("scope", call.args[1] if len(call.args) > 1 else ast.Constant(None)))
+            if "SHARED" in scope_txt:
+                # A partial that shares the caller's scope (include): which of its names are
+                # globals depends on what is in scope at *each* place it is included.  `_visit`
+                # revisits a partial (for globals only) when its key differs from the ones seen;
+                # without a key the second and later includes of the same partial are skipped,
+                # whatever is in scope there.
+                res.ob(f"partial-key:{ps.qual}")
+                if kw.get("key") is None or (isinstance(kw.get("key"), ast.Constant) and kw["key"].value is None):
+                    res.add("C19-KEY", ps.qual, "shared-visited-once", f"{ps.qual}: a partial that shares the caller's scope carries no key, so `_visit` analyses it at its first include only: a name that is bound there (a loop variable, a `with ... as` alias, an earlier assign) but read from the render arguments at a later include of the same partial is never reported as a global", ps.file, call.lineno)
+                continue
+            if "ISOLATED" not in scope_txt:
                 continue
             n_iso += 1
             res.ob(f"partial-key:{ps.qual}")
@@ -595,9 +608,122 @@ def run(repo: Repo) -> Result:
                 res.add("C19-KEY", ps.qual, "key-misses-scope", f"{ps.qual}: the partial key `{text(key_r)[:60]}` does not cover every name passed as in_scope (`{text(in_scope) if in_scope is not None else None}`): two renders that differ only in a bound variable/alias share a key and the second is never analysed", ps.file, call.lineno)
             if not covers_name:
                 res.add("C19-KEY", ps.qual, "key-misses-name", f"{ps.qual}: the partial key does not include the partial's name", ps.file, call.lineno)
+            else:
+                # the name component must identify the partial for every kind of name the node can
+                # hold: resolved through the local assignments, no arm of it may be a constant
+                # (``self.name.value if isinstance(self.name, StringLiteral) else ""`` gives every
+                # partial named by an identifier — inline snippets — the same name, so `_visit`
+                # takes the second snippet for the first one seen "with different arguments" and
+                # records only its globals: its filters, tags and locals are never reported)
+                nm_r = resolve_local(name_expr, assigns)
+                arms = []
+                todo_ = [nm_r]
+                while todo_:
+                    x_ = todo_.pop()
+                    if isinstance(x_, ast.IfExp):
+                        todo_ += [x_.body, x_.orelse]
+                    else:
+                        arms.append(x_)
+                const_arms = [a for a in arms if isinstance(a, ast.Constant)]
+                if const_arms and len(arms) > 1:
+                    res.add("C19-KEY", ps.qual, "name-collapses", f"{ps.qual}: the partial's name (and the name component of its key) is `{text(nm_r)[:80]}` — the constant {const_arms[0].value!r} for every partial that is not named by a string literal: two different inline snippets share one name, the visit treats the second as the first 'seen with other arguments' and records only globals for it, so the filters, tags and locals used in the second snippet are never reported", ps.file, call.lineno)
     if n_iso < 1:
         raise AnchorMissing("no node declares an ISOLATED partial scope any more; re-derive C19-KEY")
+    # ---- C19-BALANCE: every scope frame the visit pushes is popped before it returns -----------------
+    # ``_visit`` keeps the names in scope on a stack of frames shared by the whole walk.  A frame
+    # pushed and not popped on some path (an early return between the two) stays on the stack for
+    # the rest of the template — or makes an enclosing block's own pop remove the wrong frame — and
+    # every later read of one of its names is taken for a local: a variable the render reads from
+    # its arguments is missing from ``globals``.  All paths of the visit, counting frames.
+    for fq in ("liquid.static_analysis.analyze", "liquid.static_analysis.analyze_async"):
+        f = repo.func(fq)
+        visit = next((n for n in ast.walk(f.node) if isinstance(n, (ast.FunctionDef, ast.AsyncFunctionDef)) and n.name == "_visit"), None)
+        if visit is None:
+            raise AnchorMissing(f"{fq}: nested _visit not found")
+        # module-level helpers that push a frame for their caller (and do not pop it themselves)
+        openers = set()
+        for hn, hf in f.module.functions.items():
+            hd = [c.func.attr for c in ast.walk(hf.node) if isinstance(c, ast.Call) and isinstance(c.func, ast.Attribute) and isinstance(c.func.value, ast.Name) and "scope" in c.func.value.id and c.func.attr in ("push", "pop")]
+            if "push" in hd and "pop" not in hd:
+                openers.add(hn)
+        n_push, bad = _scope_balance(visit, openers)
+        res.ob(f"balance:{fq}", max(1, n_push))
+        if n_push < 2:
+            raise AnchorMissing(f"{fq}: only {n_push} scope pushes found in _visit (block scope and partial scope expected)")
+        for node_, pending in bad:
+            res.add("C19-BALANCE", fq, f"unpopped:{'return' if isinstance(node_, ast.Return) else 'end'}", f"{fq}: _visit can leave ({'return' if isinstance(node_, ast.Return) else 'end of function'}, line {getattr(node_, 'lineno', 0)}) with {pending} scope frame(s) it pushed still on the stack: the names of that frame stay in scope for the rest of the walk, so later reads of them are not reported as globals", f.file, getattr(node_, "lineno", f.line))
     return res
+
+
+def _scope_balance(fn: ast.AST, openers: set = frozenset()) -> tuple[int, list]:
+    """(number of push sites, [(exit node, frames still pushed)]) over all paths of ``fn``.
+    A statement that contains ``<scope>.push(...)`` opens a frame (also when the push is one arm of
+    a conditional expression whose other arm builds a fresh scope: the matching pop is
+    unconditional); ``<scope>.pop()`` closes one.  Loops run zero or one time."""
+
+    def is_scope(e: ast.AST) -> bool:
+        return isinstance(e, ast.Name) and "scope" in e.id
+
+    def delta(st: ast.AST) -> int:
+        d = 0
+        for c in ast.walk(st):
+            if isinstance(c, ast.Call) and isinstance(c.func, ast.Attribute) and is_scope(c.func.value):
+                if c.func.attr == "push":
+                    d += 1
+                elif c.func.attr == "pop" and not c.args:
+                    d -= 1
+            elif isinstance(c, ast.Call) and isinstance(c.func, ast.Name) and c.func.id in openers:
+                d += 1
+        return d
+
+    n_push = sum(1 for c in ast.walk(fn) if isinstance(c, ast.Call) and ((isinstance(c.func, ast.Attribute) and c.func.attr == "push" and is_scope(c.func.value)) or (isinstance(c.func, ast.Name) and c.func.id in openers)))
+    bad = []
+
+    def block(body, states: set[int]) -> set[int]:
+        for st in body:
+            if not states:
+                break
+            states = stmt(st, states)
+        return states
+
+    def stmt(st, states: set[int]) -> set[int]:
+        if isinstance(st, ast.Return):
+            for s_ in states:
+                if s_ > 0:
+                    bad.append((st, s_))
+            return set()
+        if isinstance(st, ast.Raise):
+            return set()
+        if isinstance(st, ast.If):
+            d = delta(st.test)
+            states = {s_ + d for s_ in states}
+            return block(st.body, set(states)) | (block(st.orelse, set(states)) if st.orelse else set(states))
+        if isinstance(st, (ast.For, ast.AsyncFor, ast.While)):
+            head = st.iter if not isinstance(st, ast.While) else st.test
+            d = delta(head)
+            states = {s_ + d for s_ in states}
+            once = block(st.body, set(states))
+            return states | once
+        if isinstance(st, ast.Try):
+            out = block(st.body, set(states))
+            for h in st.handlers:
+                out |= block(h.body, set(states))
+            if st.orelse:
+                out = block(st.orelse, out)
+            return block(st.finalbody, out) if st.finalbody else out
+        if isinstance(st, (ast.With, ast.AsyncWith)):
+            d = sum(delta(i.context_expr) for i in st.items)
+            return block(st.body, {s_ + d for s_ in states})
+        if isinstance(st, (ast.FunctionDef, ast.AsyncFunctionDef, ast.ClassDef)):
+            return states
+        d = delta(st)
+        return {s_ + d for s_ in states}
+
+    end = block(fn.body, {0})
+    for s_ in end:
+        if s_ > 0:
+            bad.append((fn, s_))
+    return n_push, bad
 
 
 def selftest(repo: Repo):
